@@ -46,6 +46,7 @@ type folder struct {
 	env    map[ssa.Value]fval
 	tables map[*ssa.Global]fval
 	steps  int
+	depth  int
 }
 
 func intInfo(t types.Type) (bits int, unsigned, ok bool) {
@@ -594,6 +595,34 @@ func (f *folder) run(blk *ssa.BasicBlock, idx int, prev *ssa.BasicBlock) *foldSt
 					v, ok := f.eval(a)
 					st.args = append(st.args, v)
 					st.argOK = append(st.argOK, ok)
+				}
+				// a pure helper of the library (no receiver state involved) whose
+				// arguments are all known is folded like inline code
+				if callee := in.Call.StaticCallee(); callee != nil && callee.Pkg == f.c.SLib && callee.Blocks != nil && callee.Signature.Recv() == nil && f.depth < 4 {
+					all := len(st.args) > 0
+					for _, ok := range st.argOK {
+						all = all && ok
+					}
+					if all {
+						sub := &folder{c: f.c, env: map[ssa.Value]fval{}, tables: f.tables, depth: f.depth + 1}
+						for pi, prm := range callee.Params {
+							sub.env[prm] = st.args[pi]
+						}
+						res := sub.run(callee.Blocks[0], 0, nil)
+						f.steps += sub.steps
+						switch res.kind {
+						case "return":
+							ret := res.instr.(*ssa.Return)
+							if len(ret.Results) == 1 {
+								if v, ok := sub.eval(ret.Results[0]); ok {
+									f.env[in] = v
+									continue
+								}
+							}
+						case "panic":
+							return res
+						}
+					}
 				}
 				return st
 			}
